@@ -24,7 +24,7 @@ RULE = ("case = a legal generated (declaration, configuration), verified to comp
 
 PROFILE = S.profile(renames=0.1, dups=0.0, attrs=0.2, sizes=[("small", 97), ("medium", 3)], cfg_off=0.03)
 PROFILE_WIDE = S.profile(renames=0.1, dups=0.0, attrs=0.2, sizes=[("small", 97), ("medium", 3)], cfg_off=0.0,
-                         reprs=["u64", "u128", "i128"])
+                         reprs=["u64", "u128", "i128", "usize"])
 
 
 @st.composite
@@ -32,7 +32,9 @@ def cases(draw, tier="quick"):
     op = draw(st.sampled_from(MU.C12_OPS))
     prof = PROFILE_WIDE if op in ("beyond_i64", "implicit_after_i64max") else PROFILE
     spec = draw(S.enum_specs(prof))
-    cfg = draw(S.configs(spec, p_on=0.3))
+    # sparse and empty feature sets matter here: with no feature naming the offending variant or value, the derive's own
+    # validation is the only thing between the declaration and a successful build
+    cfg = draw(S.configs(spec, p_on=[0.0, 0.08, 0.3, 0.3]))
     return {"spec": spec, "cfg": cfg, "op": op, "seed": draw(st.integers(0, 2 ** 31))}
 
 
